@@ -19,6 +19,8 @@ for name in names:
         results[name] = {"property": prop, "applies": False, "note": a.stderr.strip()[:200]}
         print(name, "does not apply"); continue
     t0 = time.time()
+    ev = os.path.join(ROOT, "evidence", prop + ".json")
+    ev_saved = open(ev).read() if os.path.exists(ev) else None     # evidence describes the unchanged tree: put it back afterwards
     try:
         p = subprocess.run([ROOT + "/check", prop], capture_output=True, text=True, timeout=1800)
         out, rc = p.stdout + p.stderr, p.returncode
@@ -27,6 +29,8 @@ for name in names:
     finally:
         subprocess.run(["git", "-C", "/repo", "checkout", "--", "."])
         subprocess.run(["rm", "-rf", "/repo/test/templates/modules"])
+        if ev_saved is not None:
+            open(ev, "w").write(ev_saved)
     viol = re.findall(r"^VIOLATION property=\S+ replay=\S+(.*)$", out, re.M)
     concrete = sum(1 for v in viol if "no-failing-input-found" not in v)
     results[name] = {"property": prop, "applies": True, "exit": rc, "violation_lines": len(viol), "with_concrete_input": concrete,
